@@ -2,7 +2,7 @@ SPECIFICATION MCSpec
 CONSTANTS
   C = 2
   MaxParts = 3
-  Amts = {1, 2, 3, 4, 6}
+  Amts = {1, 3, 4, 5}
   Tots = {3, 4, 5}
   Secs = {"ok", "flip", "other"}
   Cls = {"far", "far2", "b0", "b1", "b2"}
@@ -10,10 +10,10 @@ CONSTANTS
   RegMin = 0
   BUF = 39
   MPPT = 1
-  MaxTicks = 2
+  MaxTicks = 1
   MaxBlocks = 2
   MaxDev = 1
-  MaxOps = 7
+  MaxOps = 6
   StaleClaim = FALSE
 CONSTRAINT Bound
 VIEW View
